@@ -148,6 +148,11 @@ impl<'a> Visitor for Enumerate<'a> {
                 list.push((op, re));
             }
         }
+        // development aid (not used by ./check): restrict the sweep to one function family, e.g. to try
+        // new points of one function on the thorough universe; run it with VERIF_OUT pointing elsewhere
+        if let Ok(only) = std::env::var("VERIF_DEV_ONLY_OP") {
+            list.retain(|(op, _)| format!("{op:?}").to_lowercase().contains(&only.to_lowercase()));
+        }
         let info = sweep_many::<F, D>(d, &l, &list, budget, &c, &exec_generic::<F, D>, self.stats);
         let (cases, full) = (info.cases, info.full_grid);
         if !full {
